@@ -137,6 +137,7 @@ func checkC07(c *Ctx) {
 
 	// ---- (4)
 	checkRebuildDecision(c, "PASS-index-maintenance")
+	checkRollbackDropsLabel(c, "PASS-rollback-drops-label")
 	checkIndexLabelLast(c, "PASS-index-maintenance")
 	checkOverlayMaintenance(c, "PASS-index-maintenance")
 	// a discard of the working state discards its overlay too (on every path of Rollback)
@@ -747,4 +748,123 @@ func checkFailedRebuildDisablesIndex(c *Ctx, rule string) {
 		c.decide(rule, "failed index rebuild disables the index in memory", l.ipos(in), found && okAll, "storageVersion reset to the constant default on the error edge",
 			"after a failed rebuild the in-memory storage version is not reset to the constant 'not indexed' value (it keeps / restores a label read from disk): the loaded tree goes on serving the stale index")
 	}
+}
+
+// checkRollbackDropsLabel (shared by C07, C09, C12): erasing versions leaves
+// the persisted index describing a version that no longer exists; the label
+// that says which version it describes must be dropped or rewritten in the
+// same operation, unconditionally: "it will be rebuilt because of the version
+// mismatch" fails when the erased version numbers are committed again by a
+// session that does not maintain the index (skipFastStorageUpgrade), after
+// which label and latest version agree and the stale index is trusted.
+func checkRollbackDropsLabel(c *Ctx, rule string) {
+	l := c.L
+	c.rule(rule, "a rollback drops or rewrites the label of the persisted index", 1)
+	dvf := l.Func("", "*nodeDB.DeleteVersionsFrom")
+	tr := l.Func("", "*nodeDB.traverseRange")
+	setLabel := l.Func("", "*nodeDB.SetFastStorageVersionToBatch")
+	if dvf == nil || tr == nil || setLabel == nil {
+		c.anchorMissing(rule, "nodeDB.DeleteVersionsFrom / traverseRange / SetFastStorageVersionToBatch")
+		return
+	}
+	// the key of the label is whatever SetFastStorageVersionToBatch writes
+	labelKey := ""
+	allInstrs(setLabel, func(in ssa.Instruction) {
+		cc := callCommon(in)
+		if cc != nil && cc.IsInvoke() && cc.Method.Name() == "Set" && len(cc.Args) >= 1 {
+			labelKey = roleOf(l, cc.Args[0], "", 0)
+		}
+	})
+	if labelKey == "" {
+		c.anchorMissing(rule, "SetFastStorageVersionToBatch no longer writes a key")
+		return
+	}
+	isLabelWrite := func(in ssa.Instruction) bool {
+		cc := callCommon(in)
+		if cc == nil {
+			return false
+		}
+		if f := staticCallee(cc); f != nil {
+			return f == setLabel
+		}
+		if cc.IsInvoke() && (cc.Method.Name() == "Delete" || cc.Method.Name() == "Set") && len(cc.Args) >= 1 {
+			return roleOf(l, cc.Args[0], "", 0) == labelKey
+		}
+		return false
+	}
+	// (a) inside the erase itself
+	var erase ssa.Instruction
+	for _, in := range callsIn(dvf, predStatic(tr)) {
+		if strings.Contains(roleOf(l, callCommon(in).Args[1], "ndb", 0), "nodeKeyPrefixFormat") {
+			erase = in
+		}
+	}
+	if erase == nil {
+		c.anchorMissing(rule, "no range delete over the node key-space in DeleteVersionsFrom")
+		return
+	}
+	guardUpgraded := func(b *ssa.BasicBlock, succ int) bool {
+		// the edge on which no index was ever built (hasUpgradedToFastStorage() false) needs no label write
+		iff := ifOf(b)
+		if iff == nil {
+			return false
+		}
+		call, ok := stripTrivial(iff.Cond).(*ssa.Call)
+		if !ok {
+			return false
+		}
+		f := staticCallee(&call.Call)
+		return f != nil && f.Name() == "hasUpgradedToFastStorage" && succ == 1
+	}
+	inside := true
+	{
+		q := mustStateE(dvf, false, isLabelWrite, nil, guardUpgraded)
+		for _, r := range reachableAfter(erase, func(in ssa.Instruction) bool { _, ok := in.(*ssa.Return); return ok }, nil) {
+			ret := r.(*ssa.Return)
+			if errNilness(retVal(ret, errResultIndex(dvf.Signature)), ret.Block(), 0) > 0 {
+				continue
+			}
+			if !q(ret) {
+				inside = false
+			}
+		}
+	}
+	if inside {
+		c.ok(rule, "the erase of versions drops the index label", l.ipos(erase), "every success return of DeleteVersionsFrom after the range delete passes a write of the storage-version label (or the edge on which no index exists)")
+		return
+	}
+	// (b) every caller does it, unconditionally, after the call
+	callers := 0
+	var bad ssa.Instruction
+	for _, e := range l.callersOf(dvf) {
+		fn := e.Caller.Func
+		if fn == nil || !l.inModule(fn) || e.Site == nil {
+			continue
+		}
+		for _, cs := range []ssa.Instruction{e.Site} {
+			callers++
+			// (the rebuild decision is not accepted here: it relies on the very mismatch this rule is about,
+			// and a stop between the rollback commit and the rebuild leaves the old label in place)
+			cs := cs
+			q := mustState(fn, false, isLabelWrite, func(in ssa.Instruction) bool { return in == cs })
+			for _, r := range reachableAfter(cs, func(in ssa.Instruction) bool { _, ok := in.(*ssa.Return); return ok }, nil) {
+				ret := r.(*ssa.Return)
+				if ei := errResultIndex(fn.Signature); ei >= 0 && errNilness(retVal(ret, ei), ret.Block(), 0) > 0 {
+					continue
+				}
+				if !q(ret) && bad == nil {
+					bad = cs
+				}
+			}
+		}
+	}
+	if callers > 0 && bad == nil {
+		c.ok(rule, "the erase of versions drops the index label", l.ipos(erase), "every caller of DeleteVersionsFrom writes the storage-version label on every success path after it")
+		return
+	}
+	pos := l.ipos(erase)
+	if bad != nil {
+		pos = l.ipos(bad)
+	}
+	c.bad(rule, "the erase of versions drops the index label", pos, "versions are erased without the label of the persisted index being dropped or rewritten (neither in DeleteVersionsFrom nor, unconditionally, by its callers): the index keeps describing the erased latest version, and when a session that does not maintain the index (skipFastStorageUpgrade) commits the erased version numbers again, label and latest version agree and a later session serves the stale index (Get != tree walk)")
 }
